@@ -8,17 +8,19 @@ set -u
 ID=$1; V=$2; shift 2; EXTRA="$@"
 # round 2: SEED_ROUND=2 reads /tmp/wt2-<Cxx>/SEEDED/<a|b> and stores it as seeded/<Cxx>-<c|d>
 # round 3: /tmp/wt3-<Cxx>, stored as <Cxx>-<e|f>
-if [ "${SEED_ROUND:-1}" = 2 ]; then WT=/tmp/wt2-$ID; DV=$(echo $V | tr ab cd); elif [ "${SEED_ROUND:-1}" = 3 ]; then WT=/tmp/wt3-$ID; DV=$(echo $V | tr ab ef); else WT=/tmp/wt-$ID; DV=$V; fi
+if [ "${SEED_ROUND:-1}" = 2 ]; then WT=/tmp/wt2-$ID; DV=$(echo $V | tr ab cd); elif [ "${SEED_ROUND:-1}" = 3 ]; then WT=/tmp/wt3-$ID; DV=$(echo $V | tr ab ef); elif [ "${SEED_ROUND:-1}" = 4 ]; then WT=/tmp/wt4-$ID; DV=$(echo $V | tr ab gh); else WT=/tmp/wt-$ID; DV=$V; fi
 SRC=$WT/SEEDED/$V; DST=/verif/seeded/$ID-$DV
 mkdir -p $DST
-if [ -d $SRC ]; then cp $SRC/patch.diff $DST/patch.diff; cp $SRC/notes.md $DST/notes.md 2>/dev/null; DEMO=$(ls $SRC | grep -i '^demo' | head -1); cp $SRC/$DEMO $DST/$DEMO; else DEMO=$(ls $DST | grep -i '^demo\.' | head -1); fi
+if [ -d $SRC ]; then cp $SRC/patch.diff $DST/patch.diff; cp $SRC/notes.md $DST/notes.md 2>/dev/null; DEMO=$(ls $SRC | grep -iE '^demo\.(rs|py|sh)$' | head -1); cp $SRC/$DEMO $DST/$DEMO; else DEMO=$(ls $DST | grep -i '^demo\.' | head -1); fi
 export CARGO_NET_OFFLINE=true RUST_BACKTRACE=0 PYO3_PYTHON=/opt/veriftools/pyvenv/bin/python
 if [ "${SEED_SKIP_CONFIRM:-0}" = 1 ] && [ -f $DST/confirm.env ]; then . $DST/confirm.env; else
 cd $WT && git checkout -q -- . && rm -f sudachi/tests/seeded_demo_*.rs
 run_demo() { # returns 0 if demo passes
   case "$DEMO" in
     *.rs) cp $SRC/$DEMO sudachi/tests/seeded_demo_x.rs; cargo test -p sudachi --offline --test seeded_demo_x > $DST/demo-$1.log 2>&1; rc=$?; rm -f sudachi/tests/seeded_demo_x.rs; return $rc;;
-    *.sh) bash $SRC/$DEMO > $DST/demo-$1.log 2>&1; return $?;;
+    *.sh) (cargo build --offline -p sudachipy -p sudachi-cli > $DST/demo-build-$1.log 2>&1) || return 98
+          rm -rf target/pydemo && mkdir -p target/pydemo && cp -r python/py_src/sudachipy target/pydemo/ && cp target/debug/libsudachipy.so target/pydemo/sudachipy/sudachipy.so
+          SUDACHI_WT=$WT PYTHONPATH=$WT/target/pydemo bash $SRC/$DEMO > $DST/demo-$1.log 2>&1; return $?;;
     *.py) # Python / CLI demonstrations: (re)build the extension and the CLI in the worktree first, stage the package
           (cargo build --offline -p sudachipy -p sudachi-cli > $DST/demo-build-$1.log 2>&1) || return 98
           rm -rf target/pydemo && mkdir -p target/pydemo && cp -r python/py_src/sudachipy target/pydemo/ && cp target/debug/libsudachipy.so target/pydemo/sudachipy/sudachipy.so
